@@ -80,16 +80,14 @@ func LoopMapByOrderedKeyDesc[M ~map[K]V, K constraints.Ordered, V any](m M, f fu
 //   - 迭代过程将在 f 函数返回 false 时中断
 func LoopMapByOrderedValueAsc[M ~map[K]V, K comparable, V constraints.Ordered](m M, f func(i int, key K, val V) bool) {
 	var keys []K
-	var values []V
-	for k, v := range m {
+	for k := range m {
 		keys = append(keys, k)
-		values = append(values, v)
 	}
-	sort.Slice(values, func(i, j int) bool {
-		return AscBy(values[i], values[j])
+	sort.Slice(keys, func(i, j int) bool {
+		return AscBy(m[keys[i]], m[keys[j]])
 	})
-	for i, v := range values {
-		if !f(i, keys[i], v) {
+	for i, k := range keys {
+		if !f(i, k, m[k]) {
 			break
 		}
 	}
@@ -100,16 +98,14 @@ func LoopMapByOrderedValueAsc[M ~map[K]V, K comparable, V constraints.Ordered](m
 //   - 迭代过程将在 f 函数返回 false 时中断
 func LoopMapByOrderedValueDesc[M ~map[K]V, K comparable, V constraints.Ordered](m M, f func(i int, key K, val V) bool) {
 	var keys []K
-	var values []V
-	for k, v := range m {
+	for k := range m {
 		keys = append(keys, k)
-		values = append(values, v)
 	}
-	sort.Slice(values, func(i, j int) bool {
-		return DescBy(values[i], values[j])
+	sort.Slice(keys, func(i, j int) bool {
+		return DescBy(m[keys[i]], m[keys[j]])
 	})
-	for i, v := range values {
-		if !f(i, keys[i], v) {
+	for i, k := range keys {
+		if !f(i, k, m[k]) {
 			break
 		}
 	}
